@@ -203,6 +203,9 @@ theorem inv_check (E : Env) (k : Kind) (base : Hist) (s : Sys) (t : TxnId) (oid 
   by_cases hl : s.lock = some t
   · simp only [step]
     rw [if_pos hl]
+    by_cases hdel : checkDeleted s oid = true
+    · rw [if_pos hdel]; exact h
+    rw [if_neg hdel]
     cases hc : curK s.kind s.hist s.base oid with
     | none => exact h
     | some ct =>
@@ -225,6 +228,73 @@ theorem inv_check (E : Env) (k : Kind) (base : Hist) (s : Sys) (t : TxnId) (oid 
       · simp only [he, if_false]; exact h
   · have : (step E s (.check t oid serial)).sys = s := by simp [step, hl]
     rw [this]; exact h
+
+/-- what `deleteObject` does: nothing, or (FileStorage, serial = tid of the current revision) it
+    stages an un-creation record -/
+theorem step_delete_cases (E : Env) (s : Sys) (t : TxnId) (oid : Oid) (serial : Tid) :
+    (step E s (.delete t oid serial)).sys = s ∨
+    (s.kind = .simple .file ∧ s.lock = some t ∧ currentTid s.hist oid = some serial ∧
+      (step E s (.delete t oid serial)).out = .ok ∧
+      (step E s (.delete t oid serial)).sys =
+        { s with staged := { oid := oid, base := serial, data := tomb, wanted := tomb,
+                             resolved := false, deleted := true } :: s.staged }) := by
+  cases s with
+  | mk kind base hist lock tid staged checked resolved innerResolved voted cache =>
+  by_cases hl : lock = some t
+  · simp only [step]
+    rw [if_pos hl]
+    cases kind with
+    | demo kc kb => left; rfl
+    | simple sk =>
+      cases sk with
+      | mapping => left; rfl
+      | file =>
+        simp only
+        cases hc : currentTid hist oid with
+        | none => left; rfl
+        | some ct =>
+          simp only
+          by_cases he : serial = ct
+          · right
+            rw [if_pos he]
+            subst he
+            refine ⟨?_, hl, ?_, ?_, ?_⟩ <;> first | rfl | trivial | exact hc
+          · left; rw [if_neg he]
+  · left
+    simp [step, hl]
+
+theorem inv_delete (E : Env) (k : Kind) (base : Hist) (s : Sys) (t : TxnId) (oid : Oid) (serial : Tid)
+    (h : Inv E k base s) : Inv E k base (step E s (.delete t oid serial)).sys := by
+  rcases step_delete_cases E s t oid serial with h0 | ⟨hk, hl, hc, _, hsys⟩
+  · rw [h0]; exact h
+  · rw [hsys]
+    exact {
+      kind := h.kind, base := h.base, sorted := h.sorted, tidFresh := h.tidFresh
+      idle := by intro hh; rw [hl] at hh; cases hh
+      inner := h.inner
+      staged := by
+        intro r hr
+        rcases List.mem_cons.1 hr with hr | hr
+        · rw [hr]
+          unfold RevOK
+          have hv : viewOf s.kind s.hist s.base = s.hist := by rw [hk]; rfl
+          show (match currentTid (viewOf s.kind s.hist s.base) oid with
+                | none => _
+                | some ct => _)
+          rw [hv, hc]
+          exact Or.inl ⟨rfl, rfl, rfl⟩
+        · exact h.staged r hr
+      nlu := h.nlu, checked := h.checked, rc := h.rc, cache := h.cache
+      resolvedIff := by
+        intro o
+        rw [h.resolvedIff o]
+        constructor
+        · rintro ⟨r, hr, h1, h2⟩
+          exact ⟨r, List.mem_cons_of_mem _ hr, h1, h2⟩
+        · rintro ⟨r, hr, h1, h2⟩
+          rcases List.mem_cons.1 hr with hr | hr
+          · rw [hr] at h2; cases h2
+          · exact ⟨r, hr, h1, h2⟩ }
 
 theorem inv_vote (E : Env) (k : Kind) (base : Hist) (s : Sys) (t : TxnId)
     (h : Inv E k base s) : Inv E k base (step E s (.vote t)).sys := by
@@ -291,6 +361,7 @@ theorem inv_step (E : Env) (k : Kind) (base : Hist) (s : Sys) (op : Op)
   | begin t tid => exact inv_begin E k base s t tid h hop
   | store t oid serial data => exact inv_store E k base s t oid serial data h
   | check t oid serial => exact inv_check E k base s t oid serial h
+  | delete t oid serial => exact inv_delete E k base s t oid serial h
   | vote t => exact inv_vote E k base s t h
   | finish t => exact inv_finish E k base s t h
   | abort t => exact inv_abort E k base s t h
